@@ -862,6 +862,10 @@ fn structured(ctx: &Ctx, idx: usize, id: String, hostile: bool) -> Case {
                                     g.c.tag("flush-sent");
                                 } else if stale && !late.is_empty() {
                                     dead = true;
+                                } else if !stale && late.is_empty() && r == Ok(()) {
+                                    // each operation sends one request: with FLUSH negotiated a flush that
+                                    // reports success must have reached the device
+                                    g.c.fail("flush returned Ok although VIRTIO_BLK_F_FLUSH was negotiated and no flush request reached the device");
                                 }
                             } else {
                                 // property text: a flush is sent only when flush support was negotiated
